@@ -264,7 +264,7 @@ static void proj_dense(const char *name, int slot)
 
 /* --------------------------------------------------------------- operations */
 
-#define MAXTOK 8192
+#define MAXTOK 40000
 static long T[MAXTOK]; static int NT;
 static char OPN[32];
 
